@@ -45,6 +45,9 @@ ADVERSARIAL = ['a;b', 'say "hi"', 'l1\nl2', 'cr\r\nlf', ' lead ', '﻿bom', 'ün
 
 
 # (name, resource, start, end, has estimate, has spent, min_start, custom): every value of every dimension occurs
+# concrete binary64 quantities whose text form needs all 17 significant digits (opaque symbolic numbers cannot show a lossy format)
+FLOATS = [0.1 + 0.2, 1234567.25, 1 / 3, 2.5e-7]
+
 PROFILES = [
     ('sym', 'sym', 0, 0, 1, 1, 0, None),
     (None, '', 1, 4, 0, 0, 1, 'prio'),
@@ -55,6 +58,8 @@ PROFILES = [
     (9, 10, 4, 0, 1, 1, 3, None),
     ('sym', 2, 1, 1, 1, 0, 4, ''),
     (5, 'sym', 0, 0, 0, 1, 0, 'none'),
+    ('sym', None, 0, 0, 2, 3, 0, None),
+    (None, 'sym', 1, 0, 4, 5, 0, None),
 ]
 
 
@@ -108,8 +113,8 @@ def h(cfg):
             nk, rk, sd, ed, he, hs, msd, ck = prof
             t = Task(ids[i], text_of(nk, f'name{i}'), resource=text_of(rk, f'res{i}'),
                      start=DATES[sd], end=DATES[ed],
-                     estimate=fresh_real(f'est{i}', 0, 100) if he else None,
-                     spent=fresh_real(f'spent{i}', 0, 100) if hs else None,
+                     estimate=(FLOATS[he - 2] if he >= 2 else fresh_real(f'est{i}', 0, 100)) if he else None,
+                     spent=(FLOATS[hs - 2] if hs >= 2 else fresh_real(f'spent{i}', 0, 100)) if hs else None,
                      milestone=fresh_bool(f'ms{i}'),
                      min_start=DATES[msd])
             if ck == 'prio':
